@@ -89,3 +89,10 @@ package routing
 //@        arg(0).FeeBaseMSat == b.BaseFee && arg(0).FeeProportionalMillionths == b.ProportionalFeeRate &&
 //@        arg(0).TimeLockDelta == b.CltvExpiryDelta && arg(1) == b
 //@   site call NewBlindedEdge nth 0 as aggregate-max-enforced: assert b.HtlcMaximum != 0 ==> arg(0).HasMaxHTLC
+//@
+//@ func (b *bandwidthManager) getBandwidth
+//@   props C19
+//@   ensures result1 == nil ==> retn(getLink, 1) == nil && ret(EligibleToForward) && ret(MayAddOutgoingHtlc) == nil
+//@   site call Bandwidth: assert ret(EligibleToForward)
+//@   site call MayAddOutgoingHtlc: assert ret(EligibleToForward)
+//@   site call EligibleToForward: assert retn(getLink, 1) == nil
